@@ -291,11 +291,10 @@ func (rc *rootCtx) callRoots(c *ssa.Call) []root {
 	}
 }
 
-var retRootsMemo = map[*ssa.Function][]root{}
-var retRootsBusy = map[*ssa.Function]bool{}
 
 func (rc *rootCtx) moduleCallRoots(c *ssa.Call, fn *ssa.Function) []root {
 	var rets []root
+	retRootsMemo, retRootsBusy := rc.P.retRootsMemo, rc.P.retRootsBusy
 	if m, ok := retRootsMemo[fn]; ok {
 		rets = m
 	} else if retRootsBusy[fn] {
@@ -495,12 +494,12 @@ func (P *Prog) fieldDerefClass(f *types.Var) (memClass, bool) {
 	return 0, false
 }
 
-var fieldOwnerMemo map[*types.Var]*types.Named
 
 // fieldOwner finds the named module struct type declaring field f.
 func (P *Prog) fieldOwner(f *types.Var) *types.Named {
-	if fieldOwnerMemo == nil {
-		fieldOwnerMemo = map[*types.Var]*types.Named{}
+	if P.fieldOwnerMemo == nil {
+		P.fieldOwnerMemo = map[*types.Var]*types.Named{}
+		fieldOwnerMemo := P.fieldOwnerMemo
 		for _, p := range P.Pkgs {
 			if !inModule(p.PkgPath) {
 				continue
@@ -523,7 +522,7 @@ func (P *Prog) fieldOwner(f *types.Var) *types.Named {
 			}
 		}
 	}
-	return fieldOwnerMemo[f.Origin()]
+	return P.fieldOwnerMemo[f.Origin()]
 }
 
 func (P *Prog) isPooledType(t types.Type) bool {
